@@ -186,6 +186,12 @@ impl Lzma2Writer {
     pub fn end(&mut self) {
         self.bytes.push(0);
     }
+    /// The chunk begun last could not be framed (`end_lzma_chunk` returned false):
+    /// forget the bytes it produced, so that the model's output is again what the
+    /// framed chunks define. Nothing may be encoded after this.
+    pub fn abandon_chunk(&mut self) {
+        self.enc.model.out.truncate(self.chunk_start_out);
+    }
 }
 
 /// Outcome of walking the LZMA2 chunk framing only (no range decoding).
